@@ -153,6 +153,16 @@ func VerifC10_SwapERC20() {
 		p.EnableErc20 = false
 		_ = e.k.SetParams(e.ctx, p)
 	}
+	// another token whose SYMBOL is this token's minimum unit (symbols and minimum units are unique among
+	// themselves only), bound to a contract of its own: coins are named by minimum units, never by symbols
+	other := common.HexToAddress("0x00000000000000000000000000000000000000c7")
+	if verifChoice("symbolCollision", 2) == 1 {
+		t2 := e.seedToken(e.tok.MinUnit, "zkit", 6, 0, types.MaximumMaxSupply, true, e.owner, sdkmath.NewInt(77), e.owner)
+		t2.Contract = other.Hex()
+		e.k.upsertToken(e.ctx, t2)
+		e.evm.set(other, tkEth(e.stranger), big.NewInt(55))
+	}
+	oth0 := e.evm.sup(other)
 	denom := e.tok.MinUnit
 	if verifChoice("boundToken", 2) == 0 {
 		// a token without a contract
@@ -180,6 +190,7 @@ func VerifC10_SwapERC20() {
 	nat1, sup1 := e.bank.get(e.stranger, denom).BigInt(), e.bank.supplyOf(denom).BigInt()
 	rnat1 := e.bank.get(receiver, denom).BigInt()
 	es1, er1, esup1 := e.evm.get(e.contract, tkEth(e.stranger)), e.evm.get(e.contract, tkEth(receiver)), e.evm.sup(e.contract)
+	verifAssert(e.evm.sup(other).Cmp(oth0) == 0, "the contract of another token is never touched")
 	if err != nil {
 		verifCover("refused")
 		verifAssert(nat1.Cmp(nat0) == 0 && sup1.Cmp(sup0) == 0 && rnat1.Cmp(rnat0) == 0 && es1.Cmp(es0) == 0 && er1.Cmp(er0) == 0 && esup1.Cmp(esup0) == 0, "a conversion that fails changes neither side")
